@@ -22,6 +22,7 @@ RULE = (
     '+-1e-4 A band for MDAnalysis\' float32 search.  Non-trivial = at least one atom-frame assigned to a site through '
     'a non-zero lattice image; distinct = SHA-1 of (cell, sites, radii, positions).'
 )
+RULE += ' Added in rounds 6-10: repeated calls on the same objects with other settings; radius dicts with equal values or not naming every label; structures with ONE site per cell (automatic radius = K9); cells with one short edge and radii beyond half of it; positions listed twice in automatic-radius cases.'
 ASSUMPTIONS = [
     'distances within 1e-4 A of the radius accept either answer (MDAnalysis searches in float32)',
     'with overlapping user-supplied spheres any covering site is accepted (the statement does not order them)',
